@@ -536,6 +536,9 @@ def run(rep, tier):
         clause_b(facts, rep)
         clause_c(facts, rep)
         clause_d(facts, rep)
+        # the mask-width contract the zone analysis relies on is checked, not only trusted (shared with C15)
+        from . import c15
+        c15.clause_f(facts, rep)
     rep.min_instances('E3.read', 25)
     rep.trust('clang 14 front end', 'vector load widths (sv/primitives.py)', 'TrailingZeroes(m) in [0, bits(m)-1] for m != 0; to_bitmask() of an N-lane vector < 2^N',
               'libc memcpy/memcmp read exactly the stated range', 'a SkipScanner object is used with a single buffer (rule E7.fresh-parser of C02)')
